@@ -372,9 +372,12 @@ func trunc(xs []string) []string {
 
 func runHist(t *testing.T, run *emit.Run, s scen, fromCorpus bool) {
 	var e *env
-	if s.Env == 2 {
+	switch s.Env {
+	case 2:
 		e = setup2(t)
-	} else {
+	case 3:
+		e = setup3(t)
+	default:
 		e = setup(t)
 	}
 	var ho histObs
@@ -428,6 +431,9 @@ func runHist(t *testing.T, run *emit.Run, s scen, fromCorpus bool) {
 			}
 			o = e.deliver(b, st)
 			oracleR(run, st, b, o, s)
+			if s.Env == 3 { // outside the object model: each step is compared like a single delivery
+				run.Case(caseTerm(st, b, o), true, nil)
+			}
 			switch st.Kind {
 			case "tokenfactory.MsgCreateDenom":
 				term = fmt.Sprintf("Objects.OCreate %d %d %s", pid(st.Creator), subID(st.ID), emit.Bool(wellFormedSubdenom(st.ID)))
@@ -478,7 +484,7 @@ func runHist(t *testing.T, run *emit.Run, s scen, fromCorpus bool) {
 	// final projection, read from the real stores
 	var admins, binds, pend []string
 	ho.Admins, ho.Binds, ho.Pending = map[string]int{}, map[string]string{}, map[uint64]int{}
-	for of := 0; of <= idxUser0+2; of++ {
+	for of := 0; of <= idxUser0+2 && s.Env != 3; of++ {
 		for _, sub := range hs.order {
 			d := fmt.Sprintf("factory/%s/%s", e.acc(of), sub)
 			if !seenDenom[d] {
@@ -495,7 +501,7 @@ func runHist(t *testing.T, run *emit.Run, s scen, fromCorpus bool) {
 			admins = append(admins, emit.Pair(emit.ZI(pid(of)), emit.ZI(subID(sub)), emit.ZI(a)))
 		}
 	}
-	if s.Env != 2 {
+	if s.Env != 2 && s.Env != 3 {
 		for i, x := range ercs {
 			ea, _ := skywaytypes.NewEthAddress(x)
 			d, err := e.skywayK.GetDenomOfERC20(e.ctx, chain, *ea)
@@ -529,6 +535,10 @@ func runHist(t *testing.T, run *emit.Run, s scen, fromCorpus bool) {
 			ho.Pending[tx.Id] = p
 			pend = append(pend, emit.Pair(emit.ZU(tx.Id), emit.ZI(pid(p))))
 		}
+	}
+	if s.Env == 3 {
+		run.Count("handover-len", fmt.Sprint(len(s.Hist)))
+		return
 	}
 	run.Case(fmt.Sprintf("C03.CHist %d %s %s %s %s", s.Env, emit.List(terms), emit.List(admins), emit.List(binds), emit.List(pend)),
 		true, map[string]any{"scenario": s, "observed": ho})
@@ -778,3 +788,49 @@ func genTemplate(r *rand.Rand, env int) scen {
 }
 
 func pick2(r *rand.Rand, xs ...string) string { return xs[r.Intn(len(xs))] }
+
+// genHandover (third environment): an external-chain key changes hands between validators while a
+// relay message it signed is still waiting. B signs M with its key K; B re-registers with another
+// key (the real valset msg server: no proof of possession anywhere); A registers K as its own; A
+// submits a signature for M under K — B's published signature, replayed. Variants: steps left out,
+// another message, A signing first, B signing again afterwards.
+func genHandover(r *rand.Rand) scen {
+	s := scen{Kind: "hist", Env: 3, SigBy: -1}
+	a := r.Intn(nVals)
+	b := (a + 1 + r.Intn(nVals-1)) % nVals
+	m := uint64(1 + r.Intn(2))
+	sign := func(by, key, claimed int, msg uint64) scen {
+		st := selfSigned("consensus.MsgAddMessagesSignatures", by)
+		st.TxID, st.SigBy = msg, key
+		st.Named["SignedByAddress"] = claimed
+		return st
+	}
+	reg := func(by, whose int) scen {
+		st := selfSigned("valset.MsgAddExternalChainInfoForValidator", by)
+		st.Named["ChainInfos.Address"] = whose
+		return st
+	}
+	add := func(st scen) { s.Hist = append(s.Hist, st) }
+	if r.Intn(6) != 0 {
+		add(sign(b, b, b, m))
+	}
+	if r.Intn(5) == 0 {
+		add(sign(a, a, a, m))
+	}
+	if r.Intn(6) != 0 {
+		add(reg(b, -1))
+	}
+	if r.Intn(8) != 0 {
+		add(reg(a, b))
+	}
+	add(sign(a, b, b, pick64(r, m, m, m, 3-m)))
+	if r.Intn(3) == 0 {
+		add(sign(b, b, b, m))
+	}
+	if r.Intn(3) == 0 {
+		add(reg(b, b))
+	}
+	return s
+}
+
+func pick64(r *rand.Rand, xs ...uint64) uint64 { return xs[r.Intn(len(xs))] }
